@@ -129,6 +129,40 @@ def experiment(case, via_copy=False):
             "ranks": ranks, "frame_ok": bool(frame_ok)}
 
 
+def int_label_experiment(case):
+    """The same test on a matrix whose alternatives are labelled by integers: every resulting ranking is named after, and
+    records, the alternative that was mutated - the integer label itself, not a float or a string of it."""
+    from skcriteria.cmp.ranks_rev.rank_inv_check import RankInvariantChecker
+    from .. import methods as M
+    try:
+        n = len(case["matrix"])
+        labels = [10 * (i + 1) for i in range(n)]
+        if case["seed"] % 2:
+            labels = labels[1::2] + labels[0::2]
+        dm = I.mkdm(np.array(case["matrix"], dtype=float), list(case["objectives"]), weights=list(case["weights"]),
+                    alternatives=labels, criteria=list(case["criteria"]))
+        chk = RankInvariantChecker(M.make_direct({"name": case["dmaker"]}), repeat=case["repeat"], random_state=case["seed"])
+        rc = chk.evaluate(dm)
+        problems = []
+        for name, r in rc.ranks:
+            info = r.e_.rrt1
+            if name == "Original":
+                continue
+            mut = info.mutated
+            if not isinstance(mut, (int, np.integer)) or mut not in labels:
+                problems.append(f"ranking {name!r} records the mutated alternative as {mut!r} ({type(mut).__name__})")
+                continue
+            want = f"M.{mut}"
+            if not (name == want if case["repeat"] == 1 else name.startswith(want + "_")):
+                problems.append(f"ranking for alternative {mut!r} is named {name!r}, expected {want!r} (plus the "
+                                f"repetition number when repeat > 1)")
+            if [a for a in r.alternatives] != labels:
+                problems.append(f"ranking {name!r} lists the alternatives {list(r.alternatives)!r}")
+        return {"problems": problems[:3]}
+    except Exception as e:  # noqa: BLE001
+        return {"error": repr(e)[:300]}
+
+
 def hashseed_digests(case):
     """The same seeded experiment in fresh interpreters started with different PYTHONHASHSEED values (string hashing
     differs between them): equal seeds give equal experiments, whatever the session."""
@@ -378,6 +412,16 @@ def run(ctx):
             if [list(x) for x in mo] != want:
                 ctx.disagree(c, {"what": "schedule", "impl": want, "model": mo})
     ctx.traces_validated = len(cases)
+    # integer-labelled alternatives
+    icases = [c for c in cases if not c["drop"] and not c.get("reorder") and not c.get("own_note")][:ctx.n(12, 120)]
+    for c, o in zip(icases, I.pmap_timeout(int_label_experiment, icases, 60)):
+        ctx.count("integer_labelled_experiments")
+        if o.get("timeout"):
+            continue
+        if "error" in o:
+            ctx.disagree(c, {"what": "the test raised on integer-labelled alternatives", "exc": o["error"]})
+        elif o["problems"]:
+            ctx.oracle_fail(dict(c, integer_labels=True), {"oracle": o["problems"][0], "all": o["problems"]})
     # sessions with different string hashing (a decision maker that leaves two alternatives out of every ranking)
     hcases = []
     for _ in range(ctx.n(4, 24)):
@@ -403,6 +447,10 @@ def replay(ctx, rep):
     if "script" in case:
         print("re-run the check: the zero-gap termination case is exercised on every run")
         return 0
+    if case.get("integer_labels"):
+        o = I.pmap_timeout(int_label_experiment, [case], 60)[0]
+        print("integer-labelled experiment:", o)
+        return 1 if (o.get("problems") or "error" in o or o.get("timeout")) else 0
     o = I.pmap_timeout(run_impl, [case], 60)[0]
     if o.get("timeout"):
         print("the experiment did not come back within 60 s (non-termination); zero bound predicted:",
